@@ -40,9 +40,7 @@ var listed = []string{
 	"pkg/consensus/sync/sync.go",
 }
 
-// channel sends in these files go to subscribers that the property assumes to be live (always-ready receivers):
-// they are emitted as opaque Call instead of Block and listed in the output as an assumption.
-var assumeLiveSends = map[string]bool{"pkg/event/event.go": true}
+var pGuarded = &prog{kind: "guarded"}
 
 const maxDepth = 8
 
@@ -79,7 +77,7 @@ func (p *prog) benign() bool {
 
 func (p *prog) key() string {
 	switch p.kind {
-	case "skip", "block", "call":
+	case "skip", "block", "call", "guarded":
 		return p.kind
 	case "acq", "rel":
 		return p.kind + "(" + p.lock + "," + p.mode + ")"
@@ -191,14 +189,35 @@ func altPaths(a, b paths) paths {
 type typ struct {
 	e   ast.Expr
 	pkg *pkgInfo
+	ext bool // a value produced by code outside the translated packages (its methods are provably not ours)
+}
+
+// external: t is a type of a package that is not translated (db.DB, p2p.Connection, ...), or a value obtained from one
+func (u *universe) external(t *typ) bool {
+	if t == nil {
+		return false
+	}
+	if t.ext {
+		return true
+	}
+	if se, ok := strip(t.e).(*ast.SelectorExpr); ok {
+		if id, ok := se.X.(*ast.Ident); ok {
+			if id.Name == "sync" { // the standard library's sync, never consensus/sync under that name in the listed files
+				return false
+			}
+			return u.pkgs[id.Name] == nil
+		}
+	}
+	return false
 }
 
 type structInfo struct {
-	pkg     *pkgInfo
-	name    string
-	fields  map[string]ast.Expr
-	methods map[string]*funcInfo
-	iface   bool
+	embedded []string // names of embedded fields (keys of fields)
+	pkg      *pkgInfo
+	name     string
+	fields   map[string]ast.Expr
+	methods  map[string]*funcInfo
+	iface    bool
 }
 
 type funcInfo struct {
@@ -230,14 +249,24 @@ type pkgInfo struct {
 }
 
 type universe struct {
-	repo     string
-	fset     *token.FileSet
-	pkgs     map[string]*pkgInfo // by package name
-	errs     []string
-	opaque   map[string]bool
-	live     map[string]bool
-	fanouts  map[string]string
-	allFuncs []*funcInfo
+	repo       string
+	fset       *token.FileSet
+	pkgs       map[string]*pkgInfo // by package name
+	errs       []string
+	opaque     map[string]bool
+	live       map[string]bool
+	fanouts    map[string]string
+	allFuncs   []*funcInfo
+	goCount    map[string]int
+	racyWrites []string
+}
+
+// newGoSite registers one `go` statement / errgroup.Go of the function being translated
+func (c *ctx) newGoSite(kind string) string {
+	c.u.goCount[c.site]++
+	id := fmt.Sprintf("%s#%d", c.site, c.u.goCount[c.site])
+	c.u.fanouts[id] = kind
+	return id
 }
 
 func (u *universe) failf(pos token.Pos, format string, args ...interface{}) {
@@ -290,6 +319,7 @@ func (u *universe) load(dir string) {
 								si.fields[nm.Name] = fl.Type
 							}
 							if len(fl.Names) == 0 { // embedded
+								si.embedded = append(si.embedded, embeddedName(fl.Type))
 								si.fields[embeddedName(fl.Type)] = fl.Type
 							}
 						}
@@ -310,11 +340,7 @@ func (u *universe) load(dir string) {
 	}
 	for _, m := range methods {
 		fi := &funcInfo{pkg: pi, file: m.file, fileA: m.fa, decl: m.fd, name: m.fd.Name.Name}
-		for _, l := range listed {
-			if l == m.file {
-				fi.listed = true
-			}
-		}
+		fi.listed = true // ALL files of a package that contains a listed file are translated (callees are inlined, never opaque)
 		if m.fd.Recv != nil && len(m.fd.Recv.List) == 1 {
 			rn := embeddedName(m.fd.Recv.List[0].Type)
 			si := pi.structs[rn]
@@ -361,7 +387,7 @@ func strip(e ast.Expr) ast.Expr {
 }
 
 func isQualified(t *typ, pkg string, names ...string) bool {
-	if t == nil {
+	if t == nil || t.e == nil {
 		return false
 	}
 	se, ok := strip(t.e).(*ast.SelectorExpr)
@@ -381,7 +407,7 @@ func isQualified(t *typ, pkg string, names ...string) bool {
 }
 
 func (u *universe) structOf(t *typ) *structInfo {
-	if t == nil {
+	if t == nil || t.e == nil {
 		return nil
 	}
 	switch e := strip(t.e).(type) {
@@ -401,23 +427,23 @@ func (u *universe) structOf(t *typ) *structInfo {
 
 // underlying container expression of t (follows one level of named non-struct types)
 func (u *universe) container(t *typ) *typ {
-	if t == nil {
+	if t == nil || t.e == nil {
 		return nil
 	}
 	switch e := strip(t.e).(type) {
 	case *ast.MapType, *ast.ArrayType, *ast.ChanType:
-		return &typ{e.(ast.Expr), t.pkg}
+		return &typ{e: e.(ast.Expr), pkg: t.pkg}
 	case *ast.Ident:
 		if t.pkg != nil {
 			if ue, ok := t.pkg.types[e.Name]; ok {
-				return u.container(&typ{ue, t.pkg})
+				return u.container(&typ{e: ue, pkg: t.pkg})
 			}
 		}
 	case *ast.SelectorExpr:
 		if id, ok := e.X.(*ast.Ident); ok {
 			if p := u.pkgs[id.Name]; p != nil && id.Name != "sync" {
 				if ue, ok := p.types[e.Sel.Name]; ok {
-					return u.container(&typ{ue, p})
+					return u.container(&typ{e: ue, pkg: p})
 				}
 			}
 		}
@@ -432,11 +458,11 @@ func (u *universe) elemOf(t *typ) *typ {
 	}
 	switch e := c.e.(type) {
 	case *ast.MapType:
-		return &typ{e.Value, c.pkg}
+		return &typ{e: e.Value, pkg: c.pkg}
 	case *ast.ArrayType:
-		return &typ{e.Elt, c.pkg}
+		return &typ{e: e.Elt, pkg: c.pkg}
 	case *ast.ChanType:
-		return &typ{e.Value, c.pkg}
+		return &typ{e: e.Value, pkg: c.pkg}
 	}
 	return nil
 }
@@ -462,16 +488,18 @@ func (u *universe) isMap(t *typ) bool {
 // ---------------------------------------------------------------- per-function context
 
 type ctx struct {
-	u        *universe
-	fn       *funcInfo
-	env      map[string]*typ
-	imports  map[string]bool
-	deferred []*prog
-	depth    int
-	top      bool
-	inGo     bool            // translating the body of a goroutine literal
-	litOwn   map[string]bool // identifiers declared inside the current goroutine literal
-	site     string
+	u         *universe
+	fn        *funcInfo
+	env       map[string]*typ
+	imports   map[string]bool
+	deferred  []*prog
+	depth     int
+	top       bool
+	inGo      bool            // translating the body of a goroutine literal
+	litOwn    map[string]bool // identifiers declared inside the current goroutine literal
+	goSite    string          // key of the go site whose literal is being translated
+	loopFresh map[string]bool // identifiers declared (:=, var) inside the body of the innermost enclosing loop: fresh per iteration
+	site      string
 }
 
 func importNames(f *ast.File) map[string]bool {
@@ -492,7 +520,7 @@ func (c *ctx) child() *ctx {
 	for k, v := range c.env {
 		env[k] = v
 	}
-	return &ctx{u: c.u, fn: c.fn, env: env, imports: c.imports, depth: c.depth, site: c.site}
+	return &ctx{u: c.u, fn: c.fn, env: env, imports: c.imports, depth: c.depth, site: c.site, goSite: c.goSite, loopFresh: c.loopFresh}
 }
 
 func (c *ctx) bindFields(fl *ast.FieldList, pkg *pkgInfo) {
@@ -501,7 +529,7 @@ func (c *ctx) bindFields(fl *ast.FieldList, pkg *pkgInfo) {
 	}
 	for _, f := range fl.List {
 		for _, n := range f.Names {
-			c.env[n.Name] = &typ{f.Type, pkg}
+			c.env[n.Name] = &typ{e: f.Type, pkg: pkg}
 			if c.litOwn != nil {
 				c.litOwn[n.Name] = true
 			}
@@ -526,7 +554,7 @@ func (c *ctx) typeOf(e ast.Expr) *typ {
 	case *ast.SelectorExpr:
 		if st := u.structOf(c.typeOf(e.X)); st != nil {
 			if ft, ok := st.fields[e.Sel.Name]; ok {
-				return &typ{ft, st.pkg}
+				return &typ{e: ft, pkg: st.pkg}
 			}
 		}
 		return nil
@@ -536,18 +564,21 @@ func (c *ctx) typeOf(e ast.Expr) *typ {
 		return c.typeOf(e.X)
 	case *ast.CompositeLit:
 		if e.Type != nil {
-			return &typ{e.Type, c.fn.pkg}
+			return &typ{e: e.Type, pkg: c.fn.pkg}
 		}
 		return nil
 	case *ast.TypeAssertExpr:
 		if e.Type != nil {
-			return &typ{e.Type, c.fn.pkg}
+			return &typ{e: e.Type, pkg: c.fn.pkg}
 		}
 		return nil
 	case *ast.CallExpr:
 		rs := c.resultTypes(e)
 		if len(rs) > 0 {
 			return rs[0]
+		}
+		if se, ok := e.Fun.(*ast.SelectorExpr); ok && u.external(c.typeOf(se.X)) {
+			return &typ{ext: true}
 		}
 		return nil
 	}
@@ -567,7 +598,7 @@ func (c *ctx) resultTypes(e *ast.CallExpr) []*typ {
 				n = 1
 			}
 			for i := 0; i < n; i++ {
-				out = append(out, &typ{f.Type, fi.pkg})
+				out = append(out, &typ{e: f.Type, pkg: fi.pkg})
 			}
 		}
 		return out
@@ -575,17 +606,17 @@ func (c *ctx) resultTypes(e *ast.CallExpr) []*typ {
 	switch f := e.Fun.(type) {
 	case *ast.Ident:
 		if (f.Name == "new" || f.Name == "make") && len(e.Args) > 0 {
-			return []*typ{{e.Args[0], c.fn.pkg}}
+			return []*typ{{e: e.Args[0], pkg: c.fn.pkg}}
 		}
 		if _, local := c.env[f.Name]; !local {
 			if fi := c.fn.pkg.funcs[f.Name]; fi != nil {
 				return res(fi)
 			}
 			if _, ok := c.fn.pkg.structs[f.Name]; ok { // conversion
-				return []*typ{{f, c.fn.pkg}}
+				return []*typ{{e: f, pkg: c.fn.pkg}}
 			}
 			if _, ok := c.fn.pkg.types[f.Name]; ok {
-				return []*typ{{f, c.fn.pkg}}
+				return []*typ{{e: f, pkg: c.fn.pkg}}
 			}
 		}
 	case *ast.SelectorExpr:
@@ -616,7 +647,7 @@ func (c *ctx) mutexField(x ast.Expr) (string, bool) {
 		return "", false
 	}
 	ft, ok := st.fields[se.Sel.Name]
-	if !ok || !isQualified(&typ{ft, st.pkg}, "sync", "Mutex", "RWMutex") {
+	if !ok || !isQualified(&typ{e: ft, pkg: st.pkg}, "sync", "Mutex", "RWMutex") {
 		return "", false
 	}
 	return st.name + "." + se.Sel.Name, true
@@ -700,7 +731,24 @@ func (c *ctx) eff(e ast.Expr) *prog {
 	case *ast.StarExpr:
 		return c.eff(e.X)
 	case *ast.SelectorExpr:
+		// a selector evaluated as a VALUE (not called here): a method value would be called later through a variable
+		if st := c.u.structOf(c.typeOf(e.X)); st != nil {
+			if m := c.u.methodOf(st, e.Sel.Name, 0); m != nil && m.decl.Body != nil {
+				if m.busy || !c.u.funcProg(m, c.depth+1, e.Pos()).benign() {
+					c.u.failf(e.Pos(), "method value %s with lock/blocking effects (call it directly)", m.key())
+				}
+			}
+		}
 		return c.eff(e.X)
+	case *ast.Ident:
+		if _, local := c.env[e.Name]; !local {
+			if fi := c.fn.pkg.funcs[e.Name]; fi != nil && fi.decl.Body != nil {
+				if fi.busy || !c.u.funcProg(fi, c.depth+1, e.Pos()).benign() {
+					c.u.failf(e.Pos(), "function value %s with lock/blocking effects (call it directly)", fi.key())
+				}
+			}
+		}
+		return pSkip
 	case *ast.IndexExpr:
 		return seq(c.eff(e.X), c.eff(e.Index))
 	case *ast.SliceExpr:
@@ -745,6 +793,19 @@ func (c *ctx) call(e *ast.CallExpr) *prog {
 		if fl, ok := a.(*ast.FuncLit); ok {
 			lits = append(lits, fl)
 			continue
+		}
+		if se, ok := a.(*ast.SelectorExpr); ok {
+			// a method value handed to a callee (handler registration, callback): the callee may invoke it here
+			if st := u.structOf(c.typeOf(se.X)); st != nil {
+				if m := u.methodOf(st, se.Sel.Name, 0); m != nil && m.decl.Body != nil {
+					if m.busy {
+						u.failf(a.Pos(), "recursive method value %s", m.key())
+					} else {
+						pre = append(pre, c.eff(se.X), altN(pSkip, u.funcProg(m, c.depth+1, a.Pos())))
+					}
+					continue
+				}
+			}
 		}
 		pre = append(pre, c.eff(a))
 	}
@@ -800,7 +861,7 @@ func (c *ctx) call(e *ast.CallExpr) *prog {
 		}
 		recvEff := c.eff(f.X)
 		if st := u.structOf(tX); st != nil {
-			if m := st.methods[name]; m != nil {
+			if m := u.methodOf(st, name, 0); m != nil {
 				litsInline()
 				return seq(recvEff, seq(pre...), c.inline(m, e.Pos()))
 			}
@@ -818,10 +879,11 @@ func (c *ctx) call(e *ast.CallExpr) *prog {
 			u.failf(e.Pos(), "Wait() on an object of unknown type")
 			return pSkip
 		}
-		// unknown receiver type: if the name is a method of a listed lock-owning type of this package, refuse
-		for _, st := range c.fn.pkg.structs {
-			if m := st.methods[name]; m != nil && m.listed && structHasMutex(st) && tX == nil {
-				u.failf(e.Pos(), "cannot resolve the receiver of .%s() which may be %s.%s (owns a mutex)", name, st.name, name)
+		// the receiver is not provably outside the translated packages: if any method of that name there has lock or
+		// blocking effects, refuse (an unresolved callee must never silently become an opaque call)
+		if st := u.structOf(tX); (tX == nil || st != nil) && !u.external(tX) {
+			if k := u.nonBenignMethodNamed(name, e.Pos()); k != "" {
+				u.failf(e.Pos(), "cannot resolve the receiver of .%s(), which may be %s (lock/blocking effects)", name, k)
 				return pSkip
 			}
 		}
@@ -845,6 +907,11 @@ func (c *ctx) call(e *ast.CallExpr) *prog {
 			return seq(seq(pre...), c.inline(fi, e.Pos()))
 		}
 		litsInline()
+		_, isStruct := c.fn.pkg.structs[f.Name]
+		_, isType := c.fn.pkg.types[f.Name]
+		if !builtins[f.Name] && !isStruct && !isType {
+			u.failf(e.Pos(), "call of an identifier that is neither a builtin, a type, a local function value nor a function of the package: %s", f.Name)
+		}
 		return seq(pre...) // builtin or conversion
 	case *ast.FuncLit:
 		litsInline()
@@ -863,9 +930,44 @@ func (c *ctx) call(e *ast.CallExpr) *prog {
 	return pSkip
 }
 
+// methodOf finds a method declared on st or promoted from an embedded struct of a loaded package.
+func (u *universe) methodOf(st *structInfo, name string, depth int) *funcInfo {
+	if m := st.methods[name]; m != nil {
+		return m
+	}
+	if depth > 4 {
+		return nil
+	}
+	for _, en := range st.embedded {
+		if est := u.structOf(&typ{e: st.fields[en], pkg: st.pkg}); est != nil {
+			if m := u.methodOf(est, name, depth+1); m != nil {
+				return m
+			}
+		}
+	}
+	return nil
+}
+
+// nonBenignMethodNamed: some method with this name in a loaded package has lock/blocking effects
+func (u *universe) nonBenignMethodNamed(name string, pos token.Pos) string {
+	for _, p := range u.pkgs {
+		for _, st := range p.structs {
+			if m := st.methods[name]; m != nil && m.decl.Body != nil {
+				if m.busy {
+					return m.key()
+				}
+				if pr := u.funcProg(m, 1, pos); !pr.benign() {
+					return m.key()
+				}
+			}
+		}
+	}
+	return ""
+}
+
 func structHasMutex(st *structInfo) bool {
 	for _, ft := range st.fields {
-		if isQualified(&typ{ft, st.pkg}, "sync", "Mutex", "RWMutex") {
+		if isQualified(&typ{e: ft, pkg: st.pkg}, "sync", "Mutex", "RWMutex") {
 			return true
 		}
 	}
@@ -883,6 +985,9 @@ func isLoggerExpr(e ast.Expr) bool {
 }
 
 func typeString(t *typ) string {
+	if t.e == nil {
+		return "<external value>"
+	}
 	switch e := strip(t.e).(type) {
 	case *ast.Ident:
 		return e.Name
@@ -901,9 +1006,11 @@ func (c *ctx) funcLit(fl *ast.FuncLit, goroutine bool) *prog {
 	if goroutine {
 		cc.inGo = true
 		cc.litOwn = map[string]bool{}
+		cc.goSite = c.newGoSite("private")
 	} else {
 		cc.inGo = c.inGo
 		cc.litOwn = c.litOwn
+		cc.goSite = c.goSite
 	}
 	cc.bindFields(fl.Type.Params, c.fn.pkg)
 	return cc.body(fl.Body, fl.Pos())
@@ -918,7 +1025,12 @@ func (c *ctx) body(b *ast.BlockStmt, pos token.Pos) *prog {
 	for i := len(c.deferred) - 1; i >= 0; i-- {
 		d = append(d, c.deferred[i])
 	}
-	return altN(seqOpt(ps.ft, seq(d...)), ps.ret)
+	res := altN(seqOpt(ps.ft, seq(d...)), ps.ret)
+	if res == nil {
+		c.u.failf(pos, "no path reaches the end of a function body in %s", c.site)
+		return pSkip
+	}
+	return res
 }
 
 func (c *ctx) deferredNow() *prog {
@@ -954,6 +1066,9 @@ func (c *ctx) assign(lhs []ast.Expr, rhs []ast.Expr, define bool) {
 		if define && c.litOwn != nil {
 			c.litOwn[id.Name] = true
 		}
+		if define && c.loopFresh != nil {
+			c.loopFresh[id.Name] = true
+		}
 		if t != nil || define {
 			c.env[id.Name] = t
 		}
@@ -987,38 +1102,64 @@ func (c *ctx) assign(lhs []ast.Expr, rhs []ast.Expr, define bool) {
 }
 
 // fan-out accumulation discipline of a goroutine literal: writes to variables captured from the spawner
+// noteFanout classifies the writes a goroutine literal makes to memory it shares with its spawner: an assignment whose
+// left-hand side is rooted in a captured identifier (not declared inside the literal).  x[i] = v with x a captured
+// slice and i declared inside the literal (parameter or per-goroutine copy - go.mod is < 1.22, the loop variable itself
+// is shared) is a private slot; everything else (append to a captured slice, writes through a captured struct field,
+// captured map, captured scalar, index by the shared loop variable) is a racy shared write.
 func (c *ctx) noteFanout(s *ast.AssignStmt) {
-	if !c.inGo || c.litOwn == nil || len(s.Lhs) != 1 || len(s.Rhs) != 1 {
+	if !c.inGo || c.litOwn == nil || c.goSite == "" {
 		return
 	}
-	site := c.site
-	switch l := s.Lhs[0].(type) {
-	case *ast.Ident:
-		call, ok := s.Rhs[0].(*ast.CallExpr)
-		if !ok {
-			return
+	for _, lhs := range s.Lhs {
+		root, depthOne := lhs, false
+		var ix *ast.IndexExpr
+		for {
+			switch x := root.(type) {
+			case *ast.IndexExpr:
+				if ix == nil {
+					if _, ok := x.X.(*ast.Ident); ok && root == lhs {
+						ix, depthOne = x, true
+					}
+				}
+				root = x.X
+				continue
+			case *ast.SelectorExpr:
+				root = x.X
+				continue
+			case *ast.StarExpr:
+				root = x.X
+				continue
+			case *ast.ParenExpr:
+				root = x.X
+				continue
+			}
+			break
 		}
-		if fn, ok := call.Fun.(*ast.Ident); !ok || fn.Name != "append" || len(call.Args) == 0 {
-			return
+		id, ok := root.(*ast.Ident)
+		if !ok || id.Name == "_" || c.litOwn[id.Name] {
+			continue
 		}
-		if a0, ok := call.Args[0].(*ast.Ident); !ok || a0.Name != l.Name {
-			return
+		if s.Tok == token.DEFINE {
+			continue // declares new (own) variables
 		}
-		if c.litOwn[l.Name] {
-			return
+		kind := "racy"
+		if depthOne && ix != nil && !c.u.isMap(c.env[id.Name]) {
+			own := func(e ast.Expr) bool {
+				i, ok := e.(*ast.Ident)
+				return ok && (c.litOwn[i.Name] || c.loopFresh[i.Name])
+			}
+			if own(ix.Index) {
+				kind = "slot"
+			} else if be, ok := ix.Index.(*ast.BinaryExpr); ok && own(be.X) { // x[h-from] with h a per-goroutine copy
+				kind = "slot"
+			}
 		}
-		c.u.fanouts[site+" "+l.Name] = "append"
-	case *ast.IndexExpr:
-		id, ok := l.X.(*ast.Ident)
-		if !ok || c.litOwn[id.Name] {
-			return
-		}
-		if c.u.isMap(c.env[id.Name]) {
-			c.u.fanouts[site+" "+id.Name] = "mapwrite"
-			return
-		}
-		if _, seen := c.u.fanouts[site+" "+id.Name]; !seen {
-			c.u.fanouts[site+" "+id.Name] = "slot"
+		if cur := c.u.fanouts[c.goSite]; kind == "racy" || cur == "private" {
+			c.u.fanouts[c.goSite] = kind
+			if kind == "racy" {
+				c.u.racyWrites = append(c.u.racyWrites, fmt.Sprintf("%s writes %s", c.goSite, id.Name))
+			}
 		}
 	}
 }
@@ -1068,7 +1209,7 @@ func (c *ctx) stmt(s ast.Stmt) paths {
 							c.litOwn[n.Name] = true
 						}
 						if vs.Type != nil {
-							c.env[n.Name] = &typ{vs.Type, c.fn.pkg}
+							c.env[n.Name] = &typ{e: vs.Type, pkg: c.fn.pkg}
 						} else if i < len(vs.Values) {
 							c.env[n.Name] = c.typeOf(vs.Values[i])
 						}
@@ -1078,12 +1219,8 @@ func (c *ctx) stmt(s ast.Stmt) paths {
 		}
 		return simple(seq(ps...))
 	case *ast.SendStmt:
-		op := pBlock
-		if assumeLiveSends[c.fn.file] {
-			op = pCall
-			u.live[c.site] = true
-		}
-		return simple(seq(c.eff(s.Chan), c.eff(s.Value), op))
+		// a plain send waits for a receiver that may be gone: always a Block
+		return simple(seq(c.eff(s.Chan), c.eff(s.Value), pBlock))
 	case *ast.GoStmt:
 		if fl, ok := s.Call.Fun.(*ast.FuncLit); ok {
 			var pre []*prog
@@ -1092,6 +1229,7 @@ func (c *ctx) stmt(s ast.Stmt) paths {
 			}
 			return simple(seq(seq(pre...), goP(c.funcLit(fl, true))))
 		}
+		c.newGoSite("delegated") // go f(x): whatever f writes is classified where f's own goroutines/locks are
 		p := c.call(s.Call)
 		if p.isSkip() {
 			p = pCall
@@ -1138,7 +1276,10 @@ func (c *ctx) stmt(s ast.Stmt) paths {
 	case *ast.ForStmt:
 		init := c.stmt(s.Init)
 		cond := c.eff(s.Cond)
+		savedFresh := c.loopFresh
+		c.loopFresh = map[string]bool{}
 		body := c.list(s.Body.List, false)
+		c.loopFresh = savedFresh
 		post := c.stmt(s.Post)
 		return seqPaths(init, c.loopPaths(cond, body, post.ft, s.Cond != nil, cond))
 	case *ast.RangeStmt:
@@ -1160,7 +1301,10 @@ func (c *ctx) stmt(s ast.Stmt) paths {
 				bind(s.Value, u.elemOf(tx))
 			}
 		}
+		savedFresh := c.loopFresh
+		c.loopFresh = map[string]bool{}
 		body := c.list(s.Body.List, false)
+		c.loopFresh = savedFresh
 		if u.isChan(tx) {
 			return seqPaths(simple(x), c.loopPaths(pBlock, body, pSkip, true, pBlock))
 		}
@@ -1180,21 +1324,43 @@ func (c *ctx) stmt(s ast.Stmt) paths {
 		return seqPaths(init, seqPaths(asg, c.clauses(s.Body.List)))
 	case *ast.SelectStmt:
 		var acc *paths
+		// the select cannot wait forever if it has a default arm, or a quit arm: a receive whose value is discarded
+		// from a Done() channel or from a chan struct{} (closed by whoever ends the wait)
+		park := pBlock
+		for _, cl := range s.Body.List {
+			cc := cl.(*ast.CommClause)
+			if cc.Comm == nil {
+				park = pGuarded
+				continue
+			}
+			if es, ok := cc.Comm.(*ast.ExprStmt); ok {
+				if ue, ok := es.X.(*ast.UnaryExpr); ok && ue.Op == token.ARROW {
+					if call, ok := ue.X.(*ast.CallExpr); ok {
+						if se, ok := call.Fun.(*ast.SelectorExpr); ok && se.Sel.Name == "Done" && len(call.Args) == 0 {
+							park = pGuarded
+						}
+					} else if ct := u.container(c.typeOf(ue.X)); ct != nil {
+						if ch, ok := ct.e.(*ast.ChanType); ok {
+							if st, ok := ch.Value.(*ast.StructType); ok && (st.Fields == nil || len(st.Fields.List) == 0) {
+								park = pGuarded
+							}
+						}
+					}
+				}
+			}
+		}
+		if park == pGuarded {
+			u.live[c.site] = true
+		}
 		for _, cl := range s.Body.List {
 			cc := cl.(*ast.CommClause)
 			var p paths
 			if cc.Comm == nil {
-				p = c.list(cc.Body, false)
+				p = seqPaths(simple(park), c.list(cc.Body, false))
 			} else {
 				// the select parks once; bind the received variable's type, ignore the arrow itself
 				if as, ok := cc.Comm.(*ast.AssignStmt); ok {
 					c.assign(as.Lhs, as.Rhs, as.Tok == token.DEFINE)
-				}
-				park := pBlock
-				if assumeLiveSends[c.fn.file] {
-					// a select between a send to a (live) subscriber and the emitter's own closing signal
-					park = pCall
-					u.live[c.site] = true
 				}
 				p = seqPaths(simple(park), c.list(cc.Body, false))
 			}
@@ -1285,6 +1451,9 @@ func (c *ctx) loopPaths(pre *prog, body paths, post *prog, hasExit bool, exitEff
 	if hasExit {
 		ex = exitEff
 	}
+	if !hasExit && body.brk == nil && body.ret == nil {
+		c.u.failf(c.fn.decl.Pos(), "loop with no exit in %s: nothing after it, including deferred unlocks, can run", c.site)
+	}
 	if body.brk != nil {
 		ex = altN(ex, seq(pre, body.brk))
 	}
@@ -1313,7 +1482,7 @@ func (u *universe) funcProg(fi *funcInfo, depth int, pos token.Pos) *prog {
 	if fi.decl.Recv != nil {
 		for _, f := range fi.decl.Recv.List {
 			for _, n := range f.Names {
-				c.env[n.Name] = &typ{f.Type, fi.pkg}
+				c.env[n.Name] = &typ{e: f.Type, pkg: fi.pkg}
 			}
 		}
 	}
@@ -1341,6 +1510,7 @@ func readDiscipline(fd *ast.FuncDecl) string {
 		return ""
 	}
 	snap := map[string]bool{}
+	rawGets := 0
 	comps := map[string]bool{}
 	srcs := map[string]bool{}
 	ast.Inspect(fd.Body, func(n ast.Node) bool {
@@ -1363,6 +1533,11 @@ func readDiscipline(fd *ast.FuncDecl) string {
 			case *ast.SelectorExpr:
 				name = f.Sel.Name
 			}
+			if se, ok := x.Fun.(*ast.SelectorExpr); ok && se.Sel.Name == "Get" {
+				if inner, ok := se.X.(*ast.SelectorExpr); ok && inner.Sel.Name == "database" {
+					rawGets++ // a read of the live database, not of the snapshot
+				}
+			}
 			m := componentRe.FindStringSubmatch(name)
 			if m == nil {
 				return true
@@ -1381,10 +1556,54 @@ func readDiscipline(fd *ast.FuncDecl) string {
 	if len(comps) < 2 {
 		return ""
 	}
-	if len(srcs) == 1 && !srcs["<separate Get>"] {
+	if len(srcs) == 1 && !srcs["<separate Get>"] && rawGets == 0 {
 		return "one"
 	}
 	return "separate"
+}
+
+// poolConfigWiring reads the composite literal txpool.TransactionPoolConfig{...} in the engine: (field, source field) pairs
+func poolConfigWiring(u *universe, path string) [][2]string {
+	f, err := parser.ParseFile(u.fset, path, nil, parser.SkipObjectResolution)
+	if err != nil {
+		u.errs = append(u.errs, fmt.Sprintf("pool config wiring: %v", err))
+		return nil
+	}
+	var out [][2]string
+	found := 0
+	ast.Inspect(f, func(n ast.Node) bool {
+		cl, ok := n.(*ast.CompositeLit)
+		if !ok {
+			return true
+		}
+		se, ok := cl.Type.(*ast.SelectorExpr)
+		if !ok || se.Sel.Name != "TransactionPoolConfig" {
+			return true
+		}
+		if id, ok := se.X.(*ast.Ident); !ok || id.Name != "txpool" {
+			return true
+		}
+		found++
+		for _, el := range cl.Elts {
+			kv, ok := el.(*ast.KeyValueExpr)
+			if !ok {
+				u.failf(el.Pos(), "pool config wiring: positional field")
+				continue
+			}
+			k, _ := kv.Key.(*ast.Ident)
+			v, okv := kv.Value.(*ast.SelectorExpr)
+			if k == nil || !okv {
+				u.failf(el.Pos(), "pool config wiring: field not copied from a configuration field")
+				continue
+			}
+			out = append(out, [2]string{k.Name, v.Sel.Name})
+		}
+		return true
+	})
+	if found != 1 {
+		u.errs = append(u.errs, fmt.Sprintf("pool config wiring: expected one txpool.TransactionPoolConfig literal in %s, found %d", path, found))
+	}
+	return out
 }
 
 // ---------------------------------------------------------------- lock order + output
@@ -1449,6 +1668,8 @@ func (p *prog) coq(lockID map[string]int) string {
 		return "Block"
 	case "call":
 		return "Call"
+	case "guarded":
+		return "Guarded"
 	case "acq":
 		return fmt.Sprintf("Acq %d %s", lockID[p.lock], p.mode)
 	case "rel":
@@ -1473,7 +1694,7 @@ func main() {
 		fmt.Fprintln(os.Stderr, "usage: skeletons -repo /repo -out coq/Gen/Skeletons.v")
 		os.Exit(2)
 	}
-	u := &universe{repo: *repo, fset: token.NewFileSet(), pkgs: map[string]*pkgInfo{}, opaque: map[string]bool{}, live: map[string]bool{}, fanouts: map[string]string{}}
+	u := &universe{repo: *repo, fset: token.NewFileSet(), pkgs: map[string]*pkgInfo{}, opaque: map[string]bool{}, live: map[string]bool{}, fanouts: map[string]string{}, goCount: map[string]int{}}
 	dirs := map[string]bool{}
 	for _, l := range listed {
 		if _, err := os.Stat(filepath.Join(*repo, l)); err != nil {
@@ -1617,16 +1838,38 @@ func main() {
 		if i > 0 {
 			b.WriteString(";")
 		}
-		d := "Racy"
-		if u.fanouts[k] == "slot" {
-			d = "Slots"
+		d := map[string]string{"slot": "Slots", "private": "Private", "delegated": "Delegated"}[u.fanouts[k]]
+		if d == "" {
+			d = "Racy"
 		}
 		fmt.Fprintf(&b, "\n  (%q, %s)", coqName(k), d)
 	}
 	b.WriteString("].\nLemma fanouts_ok : forallb (fun p => discipline_ok (snd p)) fanouts = true.\nProof. vm_compute. reflexivity. Qed.\n")
+	// counted independently of the translation walk: every `go` statement and every errgroup-style .Go(func) in the sources
+	goSites := 0
+	for _, fi := range fns {
+		if fi.decl.Body == nil {
+			continue
+		}
+		ast.Inspect(fi.decl.Body, func(n ast.Node) bool {
+			switch x := n.(type) {
+			case *ast.GoStmt:
+				goSites++
+			case *ast.CallExpr:
+				if se, ok := x.Fun.(*ast.SelectorExpr); ok && se.Sel.Name == "Go" && len(x.Args) == 1 {
+					if _, ok := x.Args[0].(*ast.FuncLit); ok {
+						goSites++
+					}
+				}
+			}
+			return true
+		})
+	}
+	fmt.Fprintf(&b, "(* every go statement / errgroup Go of the translated files has exactly one classification entry *)\nDefinition go_sites : nat := %d.\nLemma every_go_site_classified : List.length fanouts = go_sites.\nProof. vm_compute. reflexivity. Qed.\n", goSites)
 	// every method of a lock-owning type is one atomic step of the sequential models: it must enter the object's own
 	// lock(s) at most once per call. Driver loops that call operations repeatedly are exempt (listed).
-	exempt := map[string]bool{"TransactionPool.Start": true}
+	exempt := map[string]bool{"TransactionPool.Start": true, // the ticker loop: calls reorg once per tick
+		"TransactionPool.Init": true} // registers its handlers as method values (each counted as possibly invoked)
 	b.WriteString("\n(* methods of lock-owning types with the identifier of each own lock: one critical section per call *)\n")
 	b.WriteString("Definition atomic_ops : list (string * nat * prog) := [")
 	firstA := true
@@ -1637,7 +1880,7 @@ func main() {
 		}
 		var own []string
 		for fname, ft := range fi.recv.fields {
-			if isQualified(&typ{ft, fi.recv.pkg}, "sync", "Mutex", "RWMutex") {
+			if isQualified(&typ{e: ft, pkg: fi.recv.pkg}, "sync", "Mutex", "RWMutex") {
 				own = append(own, fi.recv.name+"."+fname)
 			}
 		}
@@ -1677,6 +1920,18 @@ func main() {
 		fmt.Fprintf(&b, "\n  (%q, %s)", coqName(fi.key()), cd)
 	}
 	b.WriteString("].\nLemma multi_reads_ok : andb (negb (match multi_reads with [] => true | _ => false end)) (forallb (fun p => read_discipline_ok (snd p)) multi_reads) = true.\nProof. vm_compute. reflexivity. Qed.\n")
+	// the engine builds the pool's configuration field by field: every field must come from the equally named field
+	// of the node configuration (a per-sender limit wired to the pool limit would silently lift the per-sender bound)
+	b.WriteString("\n(* pkg/engine/engine.go: txpool.TransactionPoolConfig{Field: e.config.TransactionPool.<Source>} *)\n")
+	b.WriteString("Definition pool_config_wiring : list (string * string) := [")
+	wiring := poolConfigWiring(u, filepath.Join(*repo, "pkg/engine/engine.go"))
+	for i, w := range wiring {
+		if i > 0 {
+			b.WriteString("; ")
+		}
+		fmt.Fprintf(&b, "(%q, %q)", w[0], w[1])
+	}
+	b.WriteString("].\nLemma pool_config_wiring_ok : andb (Nat.leb 5 (List.length pool_config_wiring)) (forallb (fun p => String.eqb (fst p) (snd p)) pool_config_wiring) = true.\nProof. vm_compute. reflexivity. Qed.\n")
 	if len(u.errs) > 0 {
 		for _, e := range u.errs {
 			fmt.Fprintln(os.Stderr, "skeletons: "+e)
@@ -1715,7 +1970,7 @@ func main() {
 	}
 	sum := map[string]interface{}{
 		"functions": len(fns), "lock_order": order, "nesting": edgeList, "opaque_calls": keys(u.opaque),
-		"assumed_live_sends": keys(u.live), "fanouts": fo, "multi_reads": mr, "atomic_ops": nAtomic, "atomic_exempt": keys(exempt), "changed": changed, "files": listed,
+		"guarded_selects": keys(u.live), "fanouts": fo, "racy_writes": u.racyWrites, "go_sites": goSites, "multi_reads": mr, "atomic_ops": nAtomic, "atomic_exempt": keys(exempt), "changed": changed, "files": listed,
 	}
 	js, _ := json.Marshal(sum)
 	fmt.Println(string(js))
